@@ -150,7 +150,7 @@ def run_harness(cases, workdir, per_case_timeout=10.0):
     results = {}
     with ThreadPoolExecutor(JOBS) as ex:
         outs = list(ex.map(_harness_shard,
-                           [(i, s, workdir, 30 + per_case_timeout * len(s)) for i, s in enumerate(shards)]))
+                           [(i, s, workdir, 30 + 0.3 * len(s)) for i, s in enumerate(shards)]))
     redo = []
     for (ok, res), shard in zip(outs, shards):
         results.update(res)
